@@ -173,8 +173,8 @@ long __wrap_syscall(long n, long a, long b, long c, long d, long e, long f) {
 #define NTK 4
 typedef struct { char ud[4]; int m, key; sem_t gate; volatile int entered, exited, released; } task_slot;
 static task_slot TK[NM][NTK];
-static volatile int task_release_on_join;        /* the spec expects the library to wait for the running tasks during this step */
-static volatile int task_joined;
+static VP_TLS volatile int task_release_on_join;        /* the spec expects the library to wait for the running tasks during this step */
+static VP_TLS volatile int task_joined;
 static int task_fn(void *ud) {
     task_slot *t = ud;
     vp_foreign_thread = 1;
@@ -268,7 +268,7 @@ static void kids_reap(void) {            /* processes that exited in this progra
 
 /* ---- poll control ---- */
 static VP_TLS struct { int m; char kind[8]; int key; } batch[8];
-static VP_TLS int nbatch, batch_armed;
+static VP_TLS int nbatch, batch_armed, intr_armed;
 static VP_TLS char ready_seen[160];
 static VP_TLS int poll_calls;
 static int midx(const char *real) { if (!real) return -1; for (int i = 0; i < nmods; i++) if (!strcmp(RN[i], real)) return i; return -1; }
@@ -295,9 +295,11 @@ int __wrap_epoll_wait(int epfd, struct epoll_event *events, int maxevents, int t
     if (in_loop == 1 && !batch_armed) {
         /* blocking loop: run the program's top-level steps from here until it prescribes the next batch (or the stop) */
         int lr = loop_poll(epfd, events, maxevents);
+        if (lr == 2) { errno = EINTR; return -1; }                   /* DispatchIntr: the poll is interrupted by a signal handler */
         if (lr <= 0) { errno = 0; return 0; }
         batch_armed = 1;
     }
+    if (intr_armed) { intr_armed = 0; poll_calls++; errno = EINTR; return -1; }
     int n = __real_epoll_wait(epfd, tmp, 64, 0);
     poll_calls++;
     /* the really-ready set (mailboxes, user descriptors, timers, internal timers), rendered like the spec's Ready() */
@@ -711,6 +713,7 @@ static void exec_action(gw_edge *e) {
             if (strcmp(exp, ready_seen)) { char sig[160]; fail(canon_sig(sig, sizeof sig, "ready-set"), "sources reported ready by the real poll: {%s}, spec: {%s}", ready_seen, exp); return; }
         }
     }
+    else if (!strcmp(a, "DispatchIntr")) { intr_armed = 1; r = m_ctx_dispatch(); intr_armed = 0; }
     else if (!strcmp(a, "ModRegister")) {
         m_mod_hook_t hk = {0};
         hk.on_evt = cb_evt;
@@ -769,7 +772,7 @@ static void exec_action(gw_edge *e) {
         const char *kd = e->sargs[1];
         int key = (int)e->args[2];
         m_src_flags fl = 0;
-        if (reg && e->nargs > 3) { if (strstr(e->sargs[3], "os|->TRUE") || strstr(e->sargs[3], "os=1")) fl |= M_SRC_ONESHOT; if (strstr(e->sargs[3], "ac=1")) fl |= M_SRC_FD_AUTOCLOSE; }
+        if (reg && e->nargs > 3) { if (strstr(e->sargs[3], "os|->TRUE") || strstr(e->sargs[3], "os=1")) fl |= M_SRC_ONESHOT; if (strstr(e->sargs[3], "ac=1")) fl |= M_SRC_FD_AUTOCLOSE; if (strstr(e->sargs[3], "pr=L")) fl |= M_SRC_PRIO_LOW; if (strstr(e->sargs[3], "pr=H")) fl |= M_SRC_PRIO_HIGH; }
         static const char *kud[] = {"", "1", "2", "3"};           /* userdata = the key */
         const void *ud = kud[key];
         if (!strcmp(kd, "fd")) r = reg ? m_mod_src_register_fd(H[m], ufd_r[key], fl, ud) : m_mod_src_deregister_fd(H[m], ufd_r[key]);
@@ -901,6 +904,7 @@ static int loop_poll(int epfd, struct epoll_event *events, int maxevents) {
     while (cursor < PN && !failed) {
         gw_edge *e = &gw_edges[P[cursor]];
         if (!strcmp(e->act, "CbReturn")) { fail("core-cbreturn-at-top", "spec returns from a callback the library never entered"); return 0; }
+        if (!strcmp(e->act, "DispatchIntr")) { cursor++; cur_state = e->dst; return 2; }
         if (!strcmp(e->act, "Dispatch")) {
             /* looping, no stop pending: this dispatch delivers a batch */
             cursor++; arm_joins(e->src, e->dst, e->act); cur_state = e->dst;
